@@ -26,6 +26,8 @@ class Digits(str):
 
 
 _SERIAL = [0]
+SKELETON = {"N": "  %d = N 0 0", "S": "  %d = S 2 0", "E": "  %d = E tok", "B": "  %d = B 120000", "TS": "  %d = TS 4", "A": "  %d = A 0",
+            "LYR": '  %d = E "lyric tok"', "SEC": '  %d = E "section tok"', "TXT": '  %d = E "tok"', "?": "garbage line %d"}
 
 
 class TokLine(str):
@@ -36,7 +38,12 @@ class TokLine(str):
 
     def __new__(cls, kind, groups, text=None):
         _SERIAL[0] += 1
-        self = str.__new__(cls, text if text is not None else "<%s line #%d>" % (kind, _SERIAL[0]))
+        if text is None:
+            # looks like a line of its kind (same literal skeleton, the serial number in place of the
+            # tick) so that code which pre-filters or dispatches on the text besides using the
+            # recogniser still sees a line of this kind; the captured fields are the `groups`
+            text = SKELETON.get(kind, "<%s line #%%d>" % kind) % _SERIAL[0]
+        self = str.__new__(cls, text)
         self.kind = kind
         self.groups_ = tuple(groups)
         return self
